@@ -508,7 +508,20 @@ fn gen_sub(rng: &mut Rng, depth: u32, names: &[&str], mono: &mut Option<Mono>, o
         ];
         let (sp_, kind) = ops[rng.below(8) as usize];
         // kind: 0 both keep, 1 left flips, 2 both flip, 3 no X at all, 4 right flips
-        with_pol(mono, if kind == 1 || kind == 2 { 1 } else if kind == 3 { 2 } else { 0 }, |m| gen_simple(rng, depth - 1, names, m, out));
+        let mut left = String::new();
+        with_pol(mono, if kind == 1 || kind == 2 { 1 } else if kind == 3 { 2 } else { 0 }, |m| gen_simple(rng, depth - 1, names, m, &mut left));
+        // a quantifier / fixed point / if-then-else extends as far right as possible: as a left operand it
+        // needs parentheses, or the right operand would be parsed into its body (and the polarity bookkeeping
+        // of the monotone-by-construction mode would be about another formula)
+        let core = left.trim_start_matches(|c| c == '-' || c == '!').trim_start_matches("not ");
+        let open = ["exists", "any", "forall", "all", "lfp", "mu", "gfp", "nu", "if"].iter().any(|k| core.starts_with(&format!("{k} ")));
+        if open && (mono.is_some() || rng.chance(1, 2)) {
+            out.push('(');
+            out.push_str(&left);
+            out.push(')');
+        } else {
+            out.push_str(&left);
+        }
         out.push_str(sp(rng));
         out.push_str(*rng.pick(sp_));
         out.push_str(sp(rng));
